@@ -324,6 +324,9 @@ func traverseMergeAnchor(newMatches *orderedmap.OrderedMap, value *CandidateNode
 			return fmt.Errorf("can only use merge anchors with maps (!!map), but got %v", value.Alias.Tag)
 		}
 		return doTraverseMap(newMatches, value.Alias, wantedKey, prefs, splat)
+	case MappingNode:
+		// the merged map is written in place: <<: {a: 1}
+		return doTraverseMap(newMatches, value, wantedKey, prefs, splat)
 	case SequenceNode:
 		for _, childValue := range value.Content {
 			err := traverseMergeAnchor(newMatches, childValue, wantedKey, prefs, splat)
